@@ -303,6 +303,9 @@ def run(prog, chk):
     precision_rule(prog, chk, "R9")
     column_advance_rule(prog, chk, "R11")
     name_line_rule(prog, chk, "R12")
+    # the writer quotes a value with whatever the analyser recommends: the analyser's evidence rule is a condition of C02 too
+    from . import c18
+    c18.delimiter_agreement(prog, chk)
 
     r10 = chk.rule("R10-surrogate-range-tests", "the writer's tests for surrogate pairs (where a folded line may be split) cut the code "
                    "units exactly at the boundaries of the lead and trail ranges", floor=8)
